@@ -181,6 +181,7 @@ type mstate struct {
 	visited  map[visitKey]int
 	depth    int
 	stack    []*frame
+	nilness  map[ssa.Value]bool // value -> known to be nil (true) / non-nil (false) on this path
 }
 
 // frame: one inlined first-party helper (A3 inlines helpers that touch protocol state, depth <= 2).
@@ -216,6 +217,10 @@ func (s *mstate) clone() *mstate {
 		n.visited[k] = v
 	}
 	n.stack = append([]*frame(nil), s.stack...)
+	n.nilness = map[ssa.Value]bool{}
+	for k, v := range s.nilness {
+		n.nilness[k] = v
+	}
 	np := *s.path
 	np.Conds = append([]CondRec(nil), s.path.Conds...)
 	np.Effects = make([]*Effect, len(s.path.Effects))
@@ -585,6 +590,17 @@ func (b *modelBuilder) walk(blk *ssa.BasicBlock, idx int, s *mstate, pre bool) {
 					if cv, ok := b.evalConstIn(s, fr, rv); ok {
 						s.env[target] = cv
 					}
+					// nil / non-nil of a returned error (or pointer) is carried to the caller's view of the result
+					if s.nilness == nil {
+						s.nilness = map[ssa.Value]bool{}
+					}
+					if isNil(unspill(rv)) {
+						s.nilness[target] = true
+					} else if k, ok := s.nilness[strip(unspill(rv))]; ok {
+						s.nilness[target] = k
+					} else if k, ok := s.nilness[rv]; ok {
+						s.nilness[target] = k
+					}
 				}
 				b.walk(fr.retBlk, fr.retIdx, s, pre)
 				return
@@ -713,9 +729,45 @@ func (b *modelBuilder) branch(blk *ssa.BasicBlock, ifi *ssa.If, s *mstate, pre b
 		take(neg, s)
 		return
 	}
+	// a nil test of a value whose nil-ness this path already decided (a helper's returned error)
+	var nilOf ssa.Value
+	var eqNil bool
+	if bo, ok := core.(*ssa.BinOp); ok && (bo.Op == token.EQL || bo.Op == token.NEQ) {
+		if isNil(bo.Y) {
+			nilOf = bo.X
+		} else if isNil(bo.X) {
+			nilOf = bo.Y
+		}
+		eqNil = (bo.Op == token.EQL) != neg // branch value on which the operand is nil
+	}
+	if nilOf != nil {
+		for _, k := range []ssa.Value{nilOf, strip(nilOf), unspill(nilOf)} {
+			if k == nil {
+				continue
+			}
+			if isN, ok := s.nilness[k]; ok {
+				take(isN == eqNil, s)
+				return
+			}
+		}
+	}
 	// opaque condition: both ways
 	desc := b.condDesc(core)
 	s1 := s.clone()
+	if nilOf != nil {
+		if s1.nilness == nil {
+			s1.nilness = map[ssa.Value]bool{}
+		}
+		if s.nilness == nil {
+			s.nilness = map[ssa.Value]bool{}
+		}
+		// s1 takes the branch on which core is true
+		coreTrueIsNil := eqNil != neg
+		_ = coreTrueIsNil
+		bo := core.(*ssa.BinOp)
+		s1.nilness[strip(nilOf)] = bo.Op == token.EQL
+		s.nilness[strip(nilOf)] = bo.Op != token.EQL
+	}
 	s1.path.Conds = append(s1.path.Conds, CondRec{desc, true})
 	take(!neg, s1)
 	s.path.Conds = append(s.path.Conds, CondRec{desc, false})
